@@ -73,6 +73,10 @@ def names_for(r, R, C, init_flat_rowmajor, trough, kind):
             return {"kind": "list", "list": lst if any(lst) else ["x"] * len(vals)}
         if kind == "length":
             return {"kind": "list", "list": [None] * (len(vals) + 1)}
+        if kind == "emptylist":
+            return {"kind": "list", "list": [], "present": r.choice(["list", "tuple"])}
+        if kind in ("tuple", "ndarray"):
+            return {"kind": "list", "list": [(r.choice(["water", f"col{i}", None]) if v > 0 else None) for i, v in enumerate(vals)], "present": kind}
         return {"kind": "str", "str": "medium"}
     if kind == "none":
         return None
@@ -126,6 +130,8 @@ def cases(tier, r):
                 ps.append({"x": "ctor", "kind": "labware", "name": r.choice(["L", "stocks"]), "rows": I(R), "cols": I(C), "vrows": NOVR,
                            "minv": N(r.choice([0, 0, 1])), "maxv": N(maxv), "init": init,
                            "names": names_for(r, R, C, flat if ok_shape else [], False, nk), "tag": f"geom-{nk}"})
+                if nk == "valid":
+                    ps.append(dict(ps[-1], reuse_names=True, tag="geom-valid-dict-used-before"))
     tgeoms = [(1, 1), (4, 1), (1, 3), (8, 4), (26, 2)] + [(r.randint(1, 26), r.randint(1, 24)) for _ in range(3 if q else 30)]
     for (V, C) in tgeoms:
         maxv = r.choice([5, 50])
@@ -133,7 +139,7 @@ def cases(tier, r):
             vals = init.get("vals", [])
             flat = (vals * C if init["form"] == "scalar" else vals) if init["form"] != "none" else [0] * C
             ok_shape = len(flat) == C
-            kinds = ["none"] + (["valid", "empty", "length"] if ok_shape else []) + (["str"] if ok_shape and C == 1 else [])
+            kinds = ["none"] + (["valid", "empty", "length", "emptylist", "tuple", "ndarray"] if ok_shape else []) + (["str"] if ok_shape and C == 1 else [])
             for nk in kinds:
                 ps.append({"x": "ctor", "kind": "trough", "name": r.choice(["L", "media"]), "rows": I(1), "cols": I(C), "vrows": VR(I(V)),
                            "minv": N(0), "maxv": N(maxv), "init": init, "names": names_for(r, 1, C, flat if ok_shape else [], True, nk), "tag": f"tgeom-{nk}"})
